@@ -61,6 +61,7 @@ type StreamPlan struct {
 	ThenFIN           bool
 	Invalid           []byte // invalid-event payload
 	FirstByte         byte   // status byte in front of the malformed event (0 = OK as for every event; anything but 0xfe / 0xff is not an EOF or ERR packet either)
+	After             int    // invalid-event: what the master sends right behind the malformed packet(s): 0 the rest of the stream, 1 an EOF packet, 2 an ERR packet, 3 nothing - it closes the connection
 	GateAccepted      bool   // the "invalid" payload is a bare 19..22-byte header with a consistent length: the gate accepts it; only "no panic" is judged
 	Second            bool   // a second, short malformed packet follows the injected one at once
 	Invalid2          []byte
@@ -428,6 +429,23 @@ func (m *simMaster) startDump(d *DumpReq, seq byte) {
 			insert(wirePacket{payload: append([]byte{0}, p.Invalid2...), kind: "invalid2"})
 		}
 		insert(wirePacket{payload: append([]byte{p.FirstByte}, p.Invalid...), kind: "invalid"})
+		if p.After > 0 {
+			end := at + 1
+			if p.Second {
+				end++
+			}
+			if end < len(pk) {
+				pk = pk[:end:end]
+			}
+			switch p.After {
+			case 1:
+				pk = append(pk, wirePacket{payload: eofPacket(), kind: "eof"})
+			case 2:
+				pk = append(pk, wirePacket{payload: errPacket(1236, "HY000", "binlog truncated in the middle of event; consider out of disk space on master"), kind: "err"})
+			case 3:
+				m.tail = stopFIN
+			}
+		}
 	case stopUnsupportedEvent:
 		var body []byte
 		switch p.BadType {
